@@ -65,6 +65,7 @@ def documents():
                       inp(type='text', placeholder='p'), inp(type='text', placeholder='p', value='v'), E('textarea', (('placeholder', 'p'),))),),
                    False, False)
     d['parentless'] = ((E('div', (('lang', 'en'),), E('form', (), inp(type='submit'), inp(type='radio', name='n')), E('p'), E('p')),), False, True)
+    d['adjacent-text'] = ((E('div', (), E('p', (), ('t', 'a'), ('t', 'b'), E('b', (), ('t', 'c'), ('t', ''), ('t', 'd'))), E('p', (), ('t', 'ab')), ('t', 'x'), ('t', 'y')),), False, False)
     d['dir-auto'] = ((E('html', (), E('body', (), E('p', (('dir', 'auto'),), ('t', 'אב')), E('p', (('dir', 'auto'),), ('t', 'ab')),
                                         E('bdi', (), ('t', 'א')), E('p', (('dir', 'rtl'),), E('span'), E('span', (('dir', 'ltr'),))))),), False, False)
     return d
@@ -79,7 +80,7 @@ SELECTORS = [
     ':-soup-contains(a)', ':-soup-contains-own(b)', 'e', 'e + e', 'p ~ p', ':not(.big)', 'form > input:first-child',
     ':lang(en):default', ':indeterminate:not(:checked)', ':link', ':any-link',
 ]
-QUICK_SELECTORS = [0, 1, 3, 4, 5, 6, 8, 9, 10, 13, 14, 15, 17, 19, 20, 24, 27, 28, 30, 33, 37, 38, 41, 45]
+QUICK_SELECTORS = [0, 1, 3, 4, 5, 6, 8, 9, 10, 13, 14, 15, 17, 19, 20, 24, 27, 28, 30, 33, 37, 38, 39, 41, 45]
 
 
 def canon(v, index, depth=0):
@@ -242,7 +243,7 @@ def run_bfs(sv, tier, docname, si, res):
 
 
 # ---------------------------------------------------------------- API layer
-API_SELECTORS = [':lang("")', ':default', ':indeterminate', '.big', '[class="big  red"]', ':dir(ltr)', ':root', 'p', ':nth-child(2)',
+API_SELECTORS = [':-soup-contains-own(b)', ':lang("")', ':default', ':indeterminate', '.big', '[class="big  red"]', ':dir(ltr)', ':root', 'p', ':nth-child(2)',
                  ':lang(en)', ':checked', ':-soup-contains(a)']
 
 
